@@ -155,6 +155,11 @@ STAGE_SHAPES = [
 ]
 
 
+def folds_case(o, key):
+    """the model's fold_of: the key is EDIF.identifier and the element is under the EDIF policy"""
+    return key == 'EDIF.identifier' and '.NS' in o and o['.NS'] == 'EDIF'
+
+
 def lookup_mode(key, policy, registered):
     if not registered:
         return 's'
@@ -215,9 +220,10 @@ def stage_request(w, fname, roots, key, pats, is_case, is_re, registered, policy
     keys = ' '.join('%d %s' % (i, otok(w.objs[i][key] if key in w.objs[i] else None)) for i in ids)
     par = ' '.join('%s %d %s' % (lookup_mode(key, policy, registered), len(getattr(p, attr)),
                                  ' '.join(str(w.index[id(c)]) for c in getattr(p, attr))) for p in plist)
-    line = 'Q %s %s %s %s %d %s %d %s %d %s %d %s' % (
+    folded = [i for i in ids if folds_case(w.objs[i], key)]
+    line = 'Q %s %s %s %s %d %s %d %s %d %s %d %s %d %s' % (
         b(is_case), b(is_re), b(nk), bk, len(pats), ' '.join(tok_of_s(p) for p in pats),
-        len(ids), keys, len(plist), par, len(others), ' '.join(str(w.index[id(c)]) for c in others))
+        len(ids), keys, len(folded), ' '.join(str(i) for i in folded), len(plist), par, len(others), ' '.join(str(w.index[id(c)]) for c in others))
     line = ' '.join(line.split())
     rootarg = list(roots) if len(roots) != 1 else roots[0]
     if registered:
@@ -286,9 +292,11 @@ def stage_requests(w, rng, policy, n_cases, stats):
         vals = [e[key] if key in e else '' for e in objs]
         pats, is_case, is_re, shape = rng.choice(in_fragment(qo.derive_patterns(rng, vals, 2)))
         ids = [w.index[id(e)] for e in objs]
-        line = 'N %s %s %d %s %d %s %d %s' % (b(is_case), b(is_re), len(pats), ' '.join(tok_of_s(p) for p in pats),
-                                              len(ids), ' '.join('%d %s' % (i, otok(w.objs[i][key] if key in w.objs[i] else None)) for i in ids),
-                                              len(ids), ' '.join(str(i) for i in ids))
+        folded = [i for i in ids if folds_case(w.objs[i], key)]
+        line = 'N %s %s %d %s %d %s %d %s %d %s' % (b(is_case), b(is_re), len(pats), ' '.join(tok_of_s(p) for p in pats),
+                                                    len(ids), ' '.join('%d %s' % (i, otok(w.objs[i][key] if key in w.objs[i] else None)) for i in ids),
+                                                    len(folded), ' '.join(str(i) for i in folded),
+                                                    len(ids), ' '.join(str(i) for i in ids))
         line = ' '.join(line.split())
         st, R = qo.call('get_netlists', list(roots), pats, key, is_case, is_re)
         impl = 'ERR ' + st if st != 'ok' else (','.join(str(x) for x in sorted(w.index[id(e)] for e in R)) or '-')
